@@ -65,11 +65,88 @@ def plan(tier, seed):
         for d in dates:
             items.append(dict(kind="spec", rule=f"{f.__module__.split('.')[-1]}.{f.__name__}", name=name,
                               group=g, date=str(d), seed=seed))
+    # all rounded rules of a date in one call (cross-talk), at every date a rounding spec changes
+    spec_dates = set()
+    for g in env.INTERNAL_PARAMS_GROUPS:
+        for fname, spec in ref.raw(g).get("rounding", {}).items():
+            spec_dates |= {k for k in spec if isinstance(k, datetime.date)}
+    spec_dates = sorted({max(x, lo) for x in spec_dates} | {datetime.date(2002, 7, 1), datetime.date(2003, 12, 31), datetime.date(2023, 7, 1)})
+    for d in spec_dates:
+        items.append(dict(kind="spec_all", date=str(d), seed=seed))
     return items
 
 
 def run_item(item):
-    return _run_system(item) if item["kind"] == "system" else _run_spec(item)
+    return {"system": _run_system, "spec": _run_spec, "spec_all": _run_spec_all}[item["kind"]](item)
+
+
+def _run_spec_all(item):
+    """All rounded rules active at a date in ONE call, each replaced by an identity function with its own
+    input column: every rule must follow its own spec (no cross-talk between the rounding of different rules)."""
+    from vf import env
+    from vf.core import rng_for
+    from vf.refmodels import ParamsRef
+
+    d = datetime.date.fromisoformat(item["date"])
+    rng = rng_for(item["seed"], PROPERTY, d.toordinal(), 4242)
+    params, functions = env.environment(d)
+    ref = ParamsRef(env.raw_yaml)
+    res = dict(kind="spec_all", rule="*", date=item["date"], violations=[], status="", values_checked=0, spec=None,
+               fault_injections=0, rules_together=0)
+    f2 = dict(functions)
+    cols, specs = {}, {}
+    names = []
+    for nm, f in functions.items():
+        info = getattr(f, "__info__", None) or {}
+        if "params_key_for_rounding" not in info:
+            continue
+        spec = ref.rounding(info["params_key_for_rounding"], d).get(nm)
+        if spec is None:
+            continue
+        names.append(nm)
+    order = list(rng.permutation(len(names)))
+    for j in order:  # dict order of the functions handed over is shuffled as well
+        nm = names[j]
+        f = functions[nm]
+        spec = ref.rounding(f.__info__["params_key_for_rounding"], d)[nm]
+        arg = f"vf_x_{j}"
+        src = f"def _ident({arg}: float) -> float:\n    return {arg}\n"
+        ns = {}
+        exec(src, ns)  # noqa: S102
+        ident = ns["_ident"]
+        ident.__name__ = nm
+        ident.__info__ = dict(f.__info__)
+        f2.pop(nm)
+        f2[nm] = ident
+        cols[arg] = hostile_x(rng, spec["base"], 0)[:120]
+        specs[nm] = (arg, spec)
+    if len(specs) < 2:
+        res["status"] = "fewer_than_two_rounded_rules"
+        return res
+    n = min(len(v) for v in cols.values())
+    data = pd.DataFrame({a: v[:n] for a, v in cols.items()})
+    data["p_id"] = np.arange(n)
+    try:
+        with warnings.catch_warnings():
+            warnings.simplefilter("ignore")
+            out = env.compute_taxes_and_transfers(data, params, f2, targets=sorted(specs), rounding=True)
+    except Exception as e:  # noqa: BLE001
+        res["violations"].append(dict(key=f"spec_all:exception:{type(e).__name__}", what=f"{item['date']}: all rounded rules together raise {type(e).__name__}: {str(e)[:200]}", date=item["date"]))
+        return res
+    res["rules_together"] = len(specs)
+    for nm, (arg, spec) in specs.items():
+        base, direction, offset = spec["base"], spec["direction"], spec.get("to_add_after_rounding", 0)
+        for xi, ri in zip(data[arg].to_numpy(), out[nm].to_numpy().astype(float)):
+            res["values_checked"] += 1
+            why = check_rounding(float(xi), float(ri), base, direction, offset)
+            if why:
+                res["violations"].append(dict(key=f"{nm}:rounding_with_other_rules",
+                                              what=f"{nm} at {item['date']} computed together with {len(specs) - 1} other rounded rules "
+                                                   f"(own spec base={base} {direction} offset={offset}): {why}", date=item["date"]))
+                break
+    res["status"] = "ok"
+    res["sample"] = dict(date=item["date"], rules_together=sorted(specs)[:8], offsets={k: v[1].get("to_add_after_rounding", 0) for k, v in specs.items() if v[1].get("to_add_after_rounding")})
+    return res
 
 
 def check_rounding(x, r, base, direction, offset):
@@ -281,6 +358,7 @@ def summarize(results, tier, seed):
     ok = [r for r in results if "_harness_error" not in r]
     viol = [dict(key=v["key"], what=v["what"], witness=v, item=r["_item"]) for r in ok for v in r["violations"]]
     spec = [r for r in ok if r["kind"] == "spec"]
+    spec_all = [r for r in ok if r["kind"] == "spec_all"]
     sysr = [r for r in ok if r["kind"] == "system"]
     specs_seen = {(r["rule"], str(sorted((r["spec"] or {}).items()))) for r in spec if r["status"] == "ok"}
     inconclusive = []
@@ -296,6 +374,7 @@ def summarize(results, tier, seed):
         rule="evaluation = one (rounded rule, date) identity-harness run on 150 hostile values, or one pair of system "
              "traces (rounding on/off); distinct by (rule, date) resp. (date, population)",
         rounded_rules=len({r["rule"] for r in spec}), distinct_specs_exercised=len(specs_seen),
+        all_rules_together_runs=[(r["date"], r["rules_together"]) for r in spec_all if r["status"] == "ok"],
         spec_cases_by_status={s: sum(1 for r in spec if r["status"] == s) for s in {r["status"] for r in spec}},
         values_checked=sum(r["values_checked"] for r in ok),
         system_values_off_grid_before_rounding=sum(r.get("off_grid_inputs", 0) for r in sysr),
